@@ -342,6 +342,17 @@ pub(crate) fn sample_ttl_keys_for_test(store: &FeoxStore, sample_size: usize) ->
         .collect()
 }
 
+#[cfg(feoxdb_verif)]
+pub(crate) fn verif_sample_and_expire(store: &Arc<FeoxStore>, sample_size: usize) -> (u64, u64) {
+    sample_and_expire_batch(
+        store,
+        &TtlConfig {
+            sample_size,
+            ..TtlConfig::default()
+        },
+    )
+}
+
 #[cfg(test)]
 #[path = "../tests/ttl_sweep_safety_tests.rs"]
 mod tests;
